@@ -484,11 +484,46 @@ def script_c20(case, naming, tier, seed):
 import formats  # noqa: E402
 
 
+# name classes every format of a chain can carry (the chain is skipped under any other naming)
+CHAIN_CLASSES = {'uvl': {'plain', 'space', 'edgespace', 'nearsame', 'long', 'numeric', 'punct', 'uvlkw', 'opword', 'digit0', 'under0',
+                         'nonascii', 'afmword'},
+                 'afm': {'afmword'}}
+
+
+def chain_source(cid):
+    """'x-<a>-<b>-...' -> a, else None"""
+    return cid.split('-')[1] if cid.startswith('x-') else None
+
+
 def roundtrip_script(fmt):
     def script(case, naming, tier, seed):
+        src = chain_source(case.get('_cid', ''))
+        if src:
+            if 'afm' in (src, fmt):
+                if naming.k != 0:
+                    return [], None
+                naming = names.Naming(('afmword',), 0, naming.seed)
+            for f in (src, fmt):
+                if f in CHAIN_CLASSES and not set(naming.classes) <= CHAIN_CLASSES[f]:
+                    return [], None
         b, ev = load_event(case, naming)
         events = [ev]
         model = b.model
+        if src:
+            # cross-format chain: write and read with the source format; the model ITS reader built
+            # is the source of this format's history
+            wev, path, _ = formats.write_event(src, model, naming)
+            events.append(wev)
+            if wev['out'] != 'value':
+                return events, {'key': ['chain', src, fmt], 'naming': naming.describe()}
+            rev, model = formats.read_event(src, path, naming)
+            events.append(rev)
+            os.remove(path)
+            if rev['out'] != 'value' or model is None or rev['anom']:
+                return events, {'key': ['chain', src, fmt], 'naming': naming.describe()}
+            from project import project
+            post, anom = project(model, naming)
+            events.append({'a': 'Rebase', 'args': {'from': src, 'to': fmt}, 'out': 'value', 'post': post, 'anom': anom})
         cycles = 3 if tier == 'quick' else 4
         for k in range(cycles):
             wev, path, _ = formats.write_event(fmt, model, naming)
@@ -503,7 +538,7 @@ def roundtrip_script(fmt):
             if rev['out'] != 'value' or model2 is None:
                 break
             model = model2
-        return events, None
+        return events, ({'key': ['chain', src, fmt], 'naming': naming.describe()} if src else None)
     return script
 
 
@@ -512,7 +547,7 @@ ALL_NAME_CLASSES = ('space', 'edgespace', 'nearsame', 'nonnfc', 'long', 'numeric
 
 def fam_names(fmt):
     import families
-    return [k for k in families.FAMILIES if k.startswith(fmt + '-')]
+    return [k for k in families.FAMILIES if k.startswith(fmt + '-') or (k.startswith('x-') and k.split('-')[2] == fmt)]
 
 
 prop('C05', fam_names('json'), name_classes=ALL_NAME_CLASSES, naming_matters=True,
